@@ -169,6 +169,9 @@ class Run:
     def finish(self) -> int:
         wall = time.time() - self.t0
         rdir = VERIF / "replays" / self.pid
+        if rdir.is_dir() and not self.replay_only:
+            for old in rdir.glob("*.json"):      # replays describe the last run only
+                old.unlink()
         lines = []
         for key, v in sorted(self._known.items()):
             f = self.open_keys[key]
